@@ -276,6 +276,9 @@ func (h *vfE2H) doCls(k int) {
 
 func (h *vfE2H) acked(tp *vfE2Topic, seq, size int, deferred bool) {
 	h.topicOf[seq] = tp.t
+	if br, ok := h.pubT[seq]; ok {
+		h.pubT[seq] = [2]int64{br[0], time.Now().UnixNano()}
+	}
 	tp.pending = append(tp.pending, seq)
 	tp.acked = append(tp.acked, seq)
 	tp.ackedB += uint64(size)
@@ -289,6 +292,7 @@ func (h *vfE2H) doPub(t, size int, viaHTTP bool) {
 	seq := h.nextSeq
 	h.nextSeq++
 	h.sizes[seq] = size
+	h.pubT[seq] = [2]int64{time.Now().UnixNano(), 0}
 	body := vfE2Body(seq, size)
 	ok := false
 	if viaHTTP {
@@ -306,7 +310,7 @@ func (h *vfE2H) doPub(t, size int, viaHTTP bool) {
 		return
 	}
 	h.acked(tp, seq, size, false)
-	h.emit(fmt.Sprintf("pub %d %d", t, size), fmt.Sprintf("ids %d", seq))
+	h.emit(fmt.Sprintf("pub %d %d @T%d %d", t, size, seq, vfE2Crc(body)), fmt.Sprintf("ids %d", seq))
 	h.count("op:pub")
 	h.after(tp)
 }
@@ -316,6 +320,7 @@ func (h *vfE2H) doDpub(t, size int, delay int64, viaHTTP bool) {
 	seq := h.nextSeq
 	h.nextSeq++
 	h.sizes[seq] = size
+	h.pubT[seq] = [2]int64{time.Now().UnixNano(), 0}
 	body := vfE2Body(seq, size)
 	ok := false
 	if viaHTTP {
@@ -333,7 +338,7 @@ func (h *vfE2H) doDpub(t, size int, delay int64, viaHTTP bool) {
 		return
 	}
 	h.acked(tp, seq, size, delay > 0)
-	h.emit(fmt.Sprintf("dpub %d %d %d", t, size, delay), fmt.Sprintf("ids %d", seq))
+	h.emit(fmt.Sprintf("dpub %d %d %d @T%d %d", t, size, delay, seq, vfE2Crc(body)), fmt.Sprintf("ids %d", seq))
 	h.count("op:dpub")
 	h.after(tp)
 }
@@ -345,17 +350,20 @@ func (h *vfE2H) doMpub(t int, sizes []int, viaHTTP bool) {
 	binary.BigEndian.PutUint32(n4[:], uint32(len(sizes)))
 	body.Write(n4[:])
 	first := h.nextSeq
-	var ss, ids []string
+	var ss, ids, tss, crcs []string
 	for _, sz := range sizes {
 		seq := h.nextSeq
 		h.nextSeq++
 		h.sizes[seq] = sz
+		h.pubT[seq] = [2]int64{time.Now().UnixNano(), 0}
 		b := vfE2Body(seq, sz)
 		binary.BigEndian.PutUint32(n4[:], uint32(len(b)))
 		body.Write(n4[:])
 		body.Write(b)
 		ss = append(ss, strconv.Itoa(sz))
 		ids = append(ids, strconv.Itoa(seq))
+		tss = append(tss, fmt.Sprintf("@T%d", seq))
+		crcs = append(crcs, fmt.Sprint(vfE2Crc(b)))
 	}
 	ok := false
 	if viaHTTP {
@@ -375,7 +383,7 @@ func (h *vfE2H) doMpub(t int, sizes []int, viaHTTP bool) {
 	for i, sz := range sizes {
 		h.acked(tp, first+i, sz, false)
 	}
-	h.emit(fmt.Sprintf("mpub %d %s", t, strings.Join(ss, ",")), "ids "+strings.Join(ids, " "))
+	h.emit(fmt.Sprintf("mpub %d %s %s %s", t, strings.Join(ss, ","), strings.Join(tss, ","), strings.Join(crcs, ",")), "ids "+strings.Join(ids, " "))
 	h.count("op:mpub")
 	h.after(tp)
 }
@@ -411,16 +419,19 @@ func (h *vfE2H) doMpubFail(t int, sizes []int, j int) {
 	binary.BigEndian.PutUint32(n4[:], uint32(len(sizes)))
 	body.Write(n4[:])
 	first := h.nextSeq
-	var ss []string
+	var ss, tss, crcs []string
 	for _, sz := range sizes {
 		seq := h.nextSeq
 		h.nextSeq++
 		h.sizes[seq] = sz
+		h.pubT[seq] = [2]int64{time.Now().UnixNano(), 0}
 		b := vfE2Body(seq, sz)
 		binary.BigEndian.PutUint32(n4[:], uint32(len(b)))
 		body.Write(n4[:])
 		body.Write(b)
 		ss = append(ss, strconv.Itoa(sz))
+		tss = append(tss, fmt.Sprintf("@T%d", seq))
+		crcs = append(crcs, fmt.Sprint(vfE2Crc(b)))
 	}
 	var sz [4]byte
 	binary.BigEndian.PutUint32(sz[:], uint32(body.Len()))
@@ -437,11 +448,12 @@ func (h *vfE2H) doMpubFail(t int, sizes []int, j int) {
 	for i := 0; i < j; i++ {
 		seq := first + i
 		h.topicOf[seq] = tp.t
+		h.pubT[seq] = [2]int64{h.pubT[seq][0], time.Now().UnixNano()}
 		tp.pending = append(tp.pending, seq)
 		tp.unackedN++
 		tp.unackedB += uint64(sizes[i])
 	}
-	h.emit(fmt.Sprintf("mpubfail %d %s %d", t, strings.Join(ss, ","), j), vfE2Fmt(code, fatal))
+	h.emit(fmt.Sprintf("mpubfail %d %s %d %s %s", t, strings.Join(ss, ","), j, strings.Join(tss, ","), strings.Join(crcs, ",")), vfE2Fmt(code, fatal))
 	h.count("op:mpubfail")
 	h.after(tp)
 }
@@ -892,6 +904,8 @@ func (h *vfE2H) exec(line string) {
 		h.doStall(ai(1), ai(2), ai(3), ai(4))
 	case "slowpause": // slowpause T C nfake
 		h.doSlowPause(ai(1), ai(2), ai(3))
+	case "attwrap": // attwrap n   (F11, thorough tier)
+		h.doAttWrap(ai(1))
 	}
 }
 
